@@ -106,6 +106,7 @@ def handleInfer (op : String) (j : Json) : Except String Json := do
         | .ok t => Ty.beq t (.model sch)
         | .error _ => false
       pure (Json.mkObj [("headers", strListJ hs), ("inFamily", Json.bool (inFamilyB sch)),
+                        ("inFamilyU", Json.bool (inFamilyUB sch)),
                         ("roundtrip", Json.bool back), ("infer", inferJ hs)])
   | "infer.fieldname" => do let s ← getStr j "s"; pure (strJ (getFieldName s))
   | _ => throw s!"unknown op {op}"
